@@ -160,7 +160,16 @@ def check_props_file(prop_v: str):
     bad = [a for a in axioms if a not in ALLOWED_AXIOMS]
     if bad:
         raise Broken("audit", f"{prop_v} depends on axioms not in the trusted base: {bad}", out[-3000:])
-    return {"closed_theorems": closed, "axioms": axioms, "output": out[-4000:]}
+    # every theorem of the property file is followed by its own `Print Assumptions`, and each one was answered
+    src = strip_comments(open(os.path.join(COQ, prop_v), encoding="utf-8").read())
+    names = re.findall(r"^\s*(?:Theorem|Lemma|Example|Corollary|Fact|Proposition)\s+(\w+)", src, flags=re.M)
+    missing = [n for n in names if not re.search(rf"^\s*Print Assumptions {n}\.", src, flags=re.M)]
+    if missing:
+        raise Broken("audit", f"{prop_v}: no `Print Assumptions` under {missing}", "")
+    answered = closed + len(re.findall(r"^Axioms:", out, flags=re.M))
+    if answered != len(names):
+        raise Broken("audit", f"{prop_v}: {len(names)} theorems but {answered} Print Assumptions answers", out[-2000:])
+    return {"closed_theorems": closed, "theorem_names": names, "axioms": axioms, "output": out[-4000:]}
 
 
 def coq_eval(name: str, text: str, timeout=600) -> str:
